@@ -182,3 +182,36 @@ pub fn extern_panics<'tcx>(tcx: TyCtxt<'tcx>) -> J {
     }
     J::Obj(vec![("sites", J::Arr(out)), ("analysed", J::Arr(analysed)), ("opaque", J::Arr(opaque))])
 }
+
+
+/// Debug impls of ADTs defined in the crates named in $FACTGEN_DEBUG_CRATES: is the impl `#[derive]`d or hand-written?
+pub fn extern_debug_impls<'tcx>(tcx: TyCtxt<'tcx>) -> J {
+    let wanted = std::env::var("FACTGEN_DEBUG_CRATES")
+        .unwrap_or_else(|_| "rustls_pki_types,rustls_pemfile,rustls".to_string());
+    let wanted: Vec<&str> = wanted.split(',').collect();
+    let mut out = Vec::new();
+    let Some(dbg) = tcx.get_diagnostic_item(rustc_span::sym::Debug) else { return J::Arr(out) };
+    for imp in tcx.all_impls(dbg) {
+        if imp.is_local() {
+            continue;
+        }
+        let self_ty = tcx.type_of(imp).instantiate_identity().skip_norm_wip();
+        if let ty::Adt(adt, _) = self_ty.kind() {
+            let krate = tcx.crate_name(adt.did().krate).to_string();
+            if !wanted.contains(&krate.as_str()) {
+                continue;
+            }
+            let fields: Vec<J> = adt
+                .all_fields()
+                .map(|f| J::s(ty_str(tcx, tcx.type_of(f.did).instantiate_identity().skip_norm_wip())))
+                .collect();
+            out.push(J::Obj(vec![
+                ("adt", J::s(path_str(tcx, adt.did()))),
+                ("krate", J::s(krate)),
+                ("derived", J::Bool(tcx.is_automatically_derived(imp))),
+                ("field_tys", J::Arr(fields)),
+            ]));
+        }
+    }
+    J::Arr(out)
+}
